@@ -105,14 +105,12 @@ def gen_case(rng, want=None):
             step = max(step, clients * spec["target_interval"])
         spec["schedule"] = rng.choice([None, None, "deterministic", "poisson"]) if th != "none" else rng.choice([None, "deterministic", "poisson"])
         if mode == "iter":
-            w, n = rng.choice([0, 0, 1, 2, 5, 20]), rng.choice([0, 1, 1, 2, 3, 7, 20, 50])
-            if w + n == 0:
-                n = 1
+            w, n = rng.choice([0, 0, 1, 2, 5, 20]), rng.choice([1, 1, 2, 3, 7, 20, 50])  # the track schema requires iterations >= 1
             spec["warmup_iterations"], spec["iterations"] = w, n
         elif mode == "time":
             spec["warmup_time_period"] = round(step * rng.choice([0, 0, 1, 2.5, 5]), 6)
-            spec["time_period"] = round(step * rng.choice([0, 0.5, 1, 3, 10, 40]), 6)
-            if rng.random() < 0.35 and ntasks == 1 and spec["warmup_time_period"] > 0:
+            spec["time_period"] = round(step * rng.choice([0.5, 1, 3, 10, 40]), 6)
+            if rng.random() < 0.35 and spec["warmup_time_period"] > 0:
                 spec["ramp_up_time_period"] = rng.choice([spec["warmup_time_period"], spec["warmup_time_period"] / 2])
         else:
             spec["finite"] = rng.choice([1, 2, 5, 13])
@@ -152,8 +150,8 @@ def gen_case(rng, want=None):
                     for r in lst:
                         r.pop("weight", None)
                 if step * nreq > 3000 and mode == "iter":
-                    spec["iterations"] = max(1, int(3000 / step) - spec["warmup_iterations"])
                     spec["warmup_iterations"] = min(spec["warmup_iterations"], 2)
+                    spec["iterations"] = max(1, int(3000 / step) - spec["warmup_iterations"])
         spec["requests"] = reqs
         spec["svc"] = {"mode": svc_mode, "base": base, "err": err_mode, "seed": rng.randint(0, 1 << 30)}
         tasks.append(spec)
